@@ -202,6 +202,35 @@ def algebraic_programs(r, n):
     return [(gen.tt(p), gen.tt(b"")) for p in P]
 
 
+def gc_directed_programs():
+    """-> [(p_tt, e_tt, tag)]: programs on which the ENABLE_GC roll-back has real work to do"""
+    pool = []
+    # directed: a GC-candidate operator (apply, opcode 2) whose result is a post-checkpoint HEAP atom
+    # with small-integer bytes (made by concat / substr), after >= 1 KiB of garbage so that the
+    # restore is worth taking: maybe_restore_with_node clones it through new_atom and must re-credit
+    # the counters
+    junk = op(14, q(bytes([0x61]) * 700), q(bytes([0x62]) * 700))
+    for E in (op(14, q(i2a(1)), q(i2a(2))), op(14, q(b"\x00"), q(b"\x80")), op(14, q(b""), q(b"")),
+              op(12, q(b"\x01\x02\x03\x04\x05\x06\x07\x08\x09"), q(b""), q(i2a(1))),
+              op(12, q(b"\x01\x02\x03\x04\x05\x06\x07\x08\x09"), q(i2a(2)), q(i2a(2))),
+              op(14, q(bytes([7]) * 30), q(bytes([8]) * 30)), op(16, q(i2a(1)), q(i2a(2)))):
+        body = op(5, op(4, E, junk))
+        pool.append((gen.tt(op(2, q(body), q(b""))), gen.tt(b""), "directed-gc-small"))
+        pool.append((gen.tt(op(4, op(2, q(body), q(b"")), op(2, q(body), q(b"")))), gen.tt(b""), "directed-gc-small"))
+    # both evaluation orders (arguments are evaluated last to first): the kept value made BEFORE the
+    # garbage, from operands that predate the checkpoint (the environment: a heap atom that is the most
+    # recent allocation when the run starts), and AFTER it
+    envs = [b"seeded-heap-atom-env", b"\x00\x05", bytes(range(60)), b"\x01\x02\x03\x04\x05"]
+    junk2 = op(23, q(i2a(1)), q(i2a(9000)))                       # lsh: a 1126-byte number
+    for env in envs:
+        for E in (op(14, i2a(1), q(b"x")), op(14, i2a(1), i2a(1)), op(14, q(b""), i2a(1), q(b"yz")), op(12, i2a(1), q(i2a(1))),
+                  op(12, i2a(1), q(b""), q(i2a(2))), op(14, op(12, i2a(1), q(i2a(1))), q(b"tail")), op(11, i2a(1)), i2a(1)):
+            for J in (junk, junk2):
+                pool.append((gen.tt(op(2, q(op(6, op(4, J, E))), i2a(1))), gen.tt(env), "directed-gc-order"))
+                pool.append((gen.tt(op(2, q(op(5, op(4, E, J))), i2a(1))), gen.tt(env), "directed-gc-order"))
+    return pool
+
+
 UNKNOWN_OPCODES = None
 
 
@@ -422,6 +451,17 @@ def flag_sensitive_programs(r, n_each=3):
                 add(op(code, q(big), q(small)), FLAG["LIMITS"], "size-%d" % n)
                 add(op(code, q(small), q(big)), FLAG["LIMITS"], "size-%d" % n)
                 add(op(code, q(big), q(small)), FLAG["DISABLE_OP"], "size-%d" % n)
+            # the same sizes reached by padding: a sign byte / redundant zero bytes in front of a magnitude
+            # that is one byte (or much) shorter - the limits are on the ATOM length, costs partly on limbs
+            pads = [b"\x00" + bytes([0x80 | r.getrandbits(7)]) + bytes(r.getrandbits(8) for _ in range(n - 2)),
+                    b"\x00" * (n - 200) + bytes([1 + r.getrandbits(6)]) + bytes(r.getrandbits(8) for _ in range(199)),
+                    b"\xff" + bytes([r.getrandbits(7)]) + bytes(r.getrandbits(8) for _ in range(n - 2))]
+            for padded in pads:
+                for code in (18, 19, 20, 61):
+                    add(op(code, q(padded), q(small)), FLAG["LIMITS"], "padded-%d" % n)
+                    add(op(code, q(small), q(padded)), FLAG["LIMITS"], "padded-%d" % n)
+                add(op(18, q(padded), q(small), q(small)), FLAG["LIMITS"], "padded-%d" % n)
+                add(op(60, q(padded), q(small), q(i2a(1000003))), FLAG["LIMITS"], "padded-modpow-%d" % n)
             add(op(60, q(big), q(small), q(i2a(1000003))), FLAG["LIMITS"], "modpow-%d" % n)
             add(op(60, q(small), q(small), q(big)), FLAG["LIMITS"], "modpow-%d" % n)
             add(op(50, q(G1_GEN), q(big)), FLAG["LIMITS"], "g1mul-%d" % n)
